@@ -2,6 +2,7 @@ import Nstd.Json.LemmasStrip
 import Nstd.Json.LemmasParse
 import Nstd.Json.LemmasRT
 import Nstd.Json.LemmasAgree
+import Nstd.Json.LemmasTokInv
 /-
   Property C15 (JSON: total, safe, round trip; stripComments removes exactly the comments).
   Only the property theorems and their non-vacuity examples live here.
@@ -32,6 +33,13 @@ theorem parse_no_oob (buf : List Byte) (h : 0 ∈ buf) : parse buf ≠ .oob := b
     bytes after the terminator are never read) -/
 theorem parse_reads_only_cstr (buf : List Byte) (h : 0 ∈ buf) : parse buf = parse (cstr buf ++ [0]) :=
   parse_agree _ _ (agree_cstr buf h)
+
+/-- a token `"` always carries a string value.  Every parser state is produced by `readToken`
+    (`parse`, `St.next`), so `parseObject`'s `token.value.toString()` is only ever applied to a
+    string: the `Val.strOf` default of the model is unreachable. -/
+theorem string_token_has_string_value (line : Nat) (r : List Byte) (st : St)
+    (h : readToken line r = .ok st) (ht : st.tok = 34) : ∃ s, st.val = .str s :=
+  readToken_str_val line r st h ht
 
 /-- a reported syntax error carries the line and column of an offset inside the text
     (`off ≤ strlen`, i.e. at a byte of the text or at its terminator) -/
